@@ -370,6 +370,7 @@ def worker(cases):
     drv = core.Driver()
     out = {"n": 0, "ties": [], "viol": [], "strata": {}, "keys": [], "samples": []}
     FEAT.clear()
+    LAST_ROW = {}          # per shard: the previous layout of each schema
     reqs, meta = [], []
     for si, v, seed, nr, np_ in cases:
         rng = random.Random(seed)
@@ -399,6 +400,26 @@ def worker(cases):
                 out["ties"].append({"what": "parse_row: model and real code differ", "cells": cols, "real": real, "model": mod,
                                     "schema": R.ty_json(t), "schema_name": t[1]})
             results.append(real)
+            # the same cells parsed by a parser that has parsed other rows before (one RowParser per sheet,
+            # as SheetParser uses it): a row's value depends on its own cells only
+            prev = LAST_ROW.get(si)
+            seq = ([prev] if prev is not None else []) + [cols, cols]
+            again = R.real_parse_seq(cls, t, seq)
+            out["strata"]["reused-parser.rows"] = out["strata"].get("reused-parser.rows", 0) + len(seq)
+            bad = [i for i, r in enumerate(again) if seq[i] is cols and r != real]
+            if bad and len(out["viol"]) < 40:
+                rec = {
+                    "what": "a row parsed by a parser that has parsed other rows before differs from the same cells parsed by a fresh parser",
+                    "schema_name": t[1],
+                    "rows_parsed_in_order_by_one_RowParser": seq,
+                    "row_index": bad[0],
+                    "fresh_parser": real, "reused_parser": again[bad[0]],
+                    "parsed_rows_differ_at": diff_paths(real, again[bad[0]]),
+                }
+                if m["kind"] != "flow":
+                    rec["schema"] = R.ty_json(t)
+                out["viol"].append(rec)
+            LAST_ROW[si] = cols
         want = ("ok", R.canon_plain(t, v))
         out["keys"].append(json.dumps([t[1], R.val_json(t, v)], sort_keys=True, ensure_ascii=False))
         distinct = []
